@@ -120,6 +120,15 @@ fn main() {
                     if pol.contains("D::a") { cc.rekey(&mut msk, &ap("D::a")).unwrap(); cc.refresh_usk(&mut msk, &mut u, true).unwrap(); }
                     writeln!(out, "USK {}", hex(&u.serialize().unwrap())).unwrap();
                 }
+                // a MINIMAL world as well: a master key without any dimension (only the broadcast right exists), a key for "*"
+                // holding that single secret, an encapsulation for "*" with its single target
+                {
+                    let (mut m0, p0) = cc.setup().unwrap();
+                    let (s, e) = cc.encaps(&p0, &ap("*")).unwrap();
+                    writeln!(out, "ENC {} {}", hex(&e.serialize().unwrap()), hex(&*s)).unwrap();
+                    let u = cc.generate_user_secret_key(&mut m0, &ap("*")).unwrap();
+                    writeln!(out, "USK {}", hex(&u.serialize().unwrap())).unwrap();
+                }
                 writeln!(out, "END").unwrap();
             }
             "TRY" => {
